@@ -3,9 +3,11 @@
     handlers for an ARBITRARY library ([lib_parse], [lib_solve]); the executable instance
     (Server/Instance.v) plugs in the verified library model, for which the stored answers are the
     definitional ones by C01-C05, C09 and the rebuild theorem C14_from_nodes_same_numbering.
-    The graph theorems (Server/Graph.v) are added when their proofs are merged. *)
+    The graph theorems are about the model of DoubleLabeledGraph::from_adf_and_ac (Server/Graph.v), proved
+    in Server/GraphProofs.v for every store satisfying the node-table invariant and every root list. *)
 From Coq Require Import NArith List Bool.
-From ADF Require Import Front.Parser Server.Model Server.Isolation.
+From Coq Require Import Sorted.
+From ADF Require Import Spec.Spec Bdd.Store Bdd.WF Front.Parser Server.Model Server.Isolation Server.Graph Server.GraphProofs.
 Import ListNotations.
 Local Open Scope N_scope.
 
@@ -76,3 +78,55 @@ Theorem C16_stale_parse_after_readd_on_the_model :
   Concrete.cparse Concrete.Y PNaive = Done (tt, Concrete.Y).
 Proof. exact Concrete.stale_parse_after_readd. Qed.
 Print Assumptions C16_stale_parse_after_readd_on_the_model.
+
+(** the graph contains exactly the nodes reachable from the roots (lo/hi steps from inner nodes), each once *)
+Theorem C16_graph_nodes_exactly_the_reachable : forall st ac, WFN st -> Forall (fun h => h < size st) ac ->
+  let g := from_adf_and_ac (table_of st) ac in
+  (forall h, In h (g_nodes g) <-> reach (table_of st) ac h) /\ NoDup (g_nodes g) /\ StronglySorted N.lt (g_nodes g).
+Proof. exact graph_nodes_exact. Qed.
+Print Assumptions C16_graph_nodes_exactly_the_reachable.
+
+(** its edges are exactly the lo / hi successors of the reachable inner nodes *)
+Theorem C16_graph_edges_exact : forall st ac, WFN st -> Forall (fun h => h < size st) ac ->
+  let g := from_adf_and_ac (table_of st) ac in
+  (forall h x, In (h, x) (g_lo g) <-> reach (table_of st) ac h /\ nv (get_node st h) < VBOT /\ x = nlo (get_node st h)) /\
+  (forall h x, In (h, x) (g_hi g) <-> reach (table_of st) ac h /\ nv (get_node st h) < VBOT /\ x = nhi (get_node st h)) /\
+  NoDup (map fst (g_lo g)) /\ NoDup (map fst (g_hi g)) /\
+  (forall h x, In (h, x) (g_lo g) \/ In (h, x) (g_hi g) -> In h (g_nodes g) /\ In x (g_nodes g) /\ 2 <= h /\ x < h).
+Proof. exact graph_edges_exact. Qed.
+Print Assumptions C16_graph_edges_exact.
+
+(** every node carries the label of its table entry, every statement is listed at its root and nowhere else *)
+Theorem C16_graph_labels_exact : forall st ac, WFN st -> Forall (fun h => h < size st) ac ->
+  let g := from_adf_and_ac (table_of st) ac in
+  map fst (g_labels g) = g_nodes g /\
+  (forall h l, In (h, l) (g_labels g) <-> reach (table_of st) ac h /\ l = label_of st h) /\
+  (forall h, reach (table_of st) ac h -> lookup h (g_labels g) = Some (label_of st h)) /\
+  (forall h, ~ reach (table_of st) ac h -> lookup h (g_labels g) = None) /\
+  (forall h, 2 <= h -> h < size st -> label_of st h = LVar (nv (get_node st h)) /\ nv (get_node st h) < VBOT).
+Proof. exact graph_labels_exact. Qed.
+Print Assumptions C16_graph_labels_exact.
+Theorem C16_graph_roots_exact : forall st ac, WFN st -> Forall (fun h => h < size st) ac ->
+  let g := from_adf_and_ac (table_of st) ac in
+  map fst (g_roots g) = g_nodes g /\
+  (forall h l, In (h, l) (g_roots g) ->
+     (forall i, In i l <-> (i < length ac)%nat /\ nth i ac 0 = h) /\ StronglySorted lt l) /\
+  (forall i, (i < length ac)%nat ->
+     In (nth i ac 0) (g_nodes g) /\
+     forall h l, In (h, l) (g_roots g) -> (In i l <-> h = nth i ac 0)) /\
+  (forall i, (i < length ac)%nat -> root_of g i = Some (nth i ac 0)) /\
+  (forall i, (length ac <= i)%nat -> root_of g i = None).
+Proof. exact graph_roots_exact. Qed.
+Print Assumptions C16_graph_roots_exact.
+
+(** following lo / hi edges from the node labelled as root of statement i under an assignment ends in the
+    terminal labelled with the value of the diagram of i (for a solved problem the roots are the
+    conditions restricted by the shown model, C01-C05) *)
+Theorem C16_graph_evaluates : forall st ac, WFN st -> Forall (fun h => h < size st) ac ->
+  let g := from_adf_and_ac (table_of st) ac in
+  forall i a fuel, (i < length ac)%nat -> (length (g_nodes g) <= fuel)%nat ->
+  exists r t, root_of g i = Some r /\ r = nth i ac 0 /\ walk g fuel r a = Some t /\
+    (lookup t (g_labels g) = Some LTop <-> den st (nth i ac 0) a = true) /\
+    (lookup t (g_labels g) = Some LBot <-> den st (nth i ac 0) a = false).
+Proof. exact graph_evaluates. Qed.
+Print Assumptions C16_graph_evaluates.
